@@ -82,6 +82,11 @@ def configs(tier: str):
     # metadata only
     for mode, closure, msgs in itertools.product(("ack", "unack"), (False, True), ("none", "plain", "both")):
         add(md_only=True, mode=mode, closure=closure, msgs=msgs, size=0)
+    # request-level mode / closure overriding the MIB defaults (file and metadata-only requests)
+    for mode, closure, rm, rc, md in itertools.product(("ack", "unack"), (False, True), ("none", "ack", "unack"), ("none", True, False), (False, True)):
+        if rm == "none" and rc == "none":
+            continue
+        add(mode=mode, closure=closure, req_mode=rm, req_closure=rc, md_only=md, size=0 if md else L + 1)
     # two consecutive transactions on the same pair of handlers; the second one overrides mode / closure in its request
     for (mode, closure), (m2, c2), size in itertools.product((("ack", False), ("unack", True), ("unack", False)),
                                                              (("ack", False), ("unack", True), ("unack", False)), (0, L + 1)):
